@@ -521,7 +521,7 @@ pub fn judge(s: &Scenario, r: &RunResult) -> Judged {
         vio.push(v(class, detail));
         return out;
     }
-    if r.exit == Exit::Code(2) {
+    if r.usage_error() {
         vio.push(v("usage-error", format!("the compiler rejected a well-formed command line: {}", String::from_utf8_lossy(&r.stderr).lines().next().unwrap_or(""))));
         return out;
     }
@@ -960,7 +960,7 @@ pub fn is_generator_phase(d: &Diag) -> bool {
 
 pub fn judge_c07(s: &Scenario, r: &RunResult) -> Judged {
     let mut j = judge(s, r);
-    if r.crashed().is_some() || r.exit == Exit::Code(2) {
+    if r.crashed().is_some() || r.usage_error() {
         return j;
     }
     let meta = Meta::of(s);
